@@ -127,6 +127,11 @@ def check(run: Run) -> None:
     nonrec = find_calls(fa.node, "glob")
     run.check("C14.R2", "all *.zo, *.zot and *.zoq files are visited recursively", globs == ["*.zo", "*.zoq", "*.zot"] and not nonrec, "get_all_zfiles", f"globs {globs}",
               f"get_all_zfiles visits {globs}{' (non-recursive glob used)' if nonrec else ''}, not exactly *.zo, *.zot, *.zoq recursively", file=fa.file, node=fa.node)
+    from ..util import filtering_constructs
+
+    flt = filtering_constructs(fa.node)
+    run.check("C14.R2", "get_all_zfiles hands on every file the globs found", not flt, "get_all_zfiles", flt[0] if flt else "unfiltered",
+              f"get_all_zfiles drops some of the files it found (`{ast.unparse(flt[0])[:80] if flt else ''}`): links to the renamed page inside those files keep the old name", file=fa.file, node=flt[0] if flt else fa.node)
     loops = [n for n in walk_no_nested(fn) if isinstance(n, ast.For) and any(model.callee(fi, c) == F_ALL for c in ast.walk(n.iter) if isinstance(c, ast.Call))]
     run.check("C14.R2", "the rewrite loop iterates get_all_zfiles", len(loops) == 1, "run_file_rename", "rewrite loop", "the rewrite loop does not iterate get_all_zfiles()", file=FILE, node=fn)
     if len(loops) == 1:
